@@ -16,6 +16,7 @@ type SolverCfg struct {
 	TimeoutMs int  // per obligation
 	Thorough  bool // re-check with all solvers
 	WorkDir   string
+	NoRace    map[string]bool // obligations (known findings) for which the first answer is enough
 }
 
 var solverWins = map[string]int{}
@@ -69,13 +70,8 @@ func Discharge(s *Session, want func(*Oblig) bool, cfg SolverCfg) {
 			continue
 		}
 		if strings.HasPrefix(line, "(error") {
-			if cur >= 0 {
-				if _, done := res[cur]; !done {
-					res[cur] = "error: " + line
-				}
-			} else {
-				res[-1] = line
-			}
+			// any solver error invalidates the whole session: nothing it reports is believed
+			res[-1] = line
 		}
 	}
 	if e, bad := res[-1]; bad {
@@ -99,11 +95,14 @@ func Discharge(s *Session, want func(*Oblig) bool, cfg SolverCfg) {
 		ob.Solver = "z3-4.8.12"
 		ob.Ms = el.Milliseconds() / int64(len(order))
 		expected := "unsat"
-		if ob.Cover {
+		if ob.Cover || ob.Canary {
 			expected = "sat"
 		}
 		if r == expected && !cfg.Thorough {
 			countWin(ob.Solver)
+			continue
+		}
+		if cfg.NoRace[ob.Name] && r != "sat" {
 			continue
 		}
 		if ob.Cover && r != "unsat" && !cfg.Thorough {
@@ -171,7 +170,7 @@ func raceStandalone(s *Session, ob *Oblig, cfg SolverCfg) {
 		go run("z3-4.8.12", q, "z3", "-in", "-smt2", fmt.Sprintf("-T:%d", cfg.TimeoutMs/1000+1))
 	}
 	expected := "unsat"
-	if ob.Cover {
+	if ob.Cover || ob.Canary {
 		expected = "sat"
 	}
 	var results []raceResult
